@@ -1,6 +1,6 @@
 use vstd::prelude::*;
 // ---- listener / socket / address shims for the server accept loop (trusted, opaque) ----
-pub struct IpAddr { pub x: u8 }
+pub use std::net::IpAddr;
 pub struct SocketAddr { pub x: u8 }
 impl SocketAddr {
     pub uninterp spec fn spec_ip(&self) -> IpAddr;
@@ -15,8 +15,8 @@ impl TcpStream {
 pub struct TcpListener { pub x: u8 }
 impl TcpListener {
     #[verifier::external_body]
+    pub async fn bind(addr: SocketAddr) -> (r: Result<TcpListener, std::io::Error>) { unimplemented!() }
+    #[verifier::external_body]
     pub async fn accept(&self) -> (r: Result<(TcpStream, SocketAddr), std::io::Error>) { unimplemented!() }
 }
-// how a connection is upgraded (plain TCP / TLS [+ authorization]); opaque here
-pub struct TcpServerConnectionHandler { pub x: u8 }
 //@trusted tokio TcpListener / TcpStream / SocketAddr: opaque environment
